@@ -35,8 +35,32 @@ def _run(run, sessions, label, module, cfg, describe, nshards=None):
     faults = run_driver(run, binary, sp, tp, nshards=nshards)
     ns, nev, rejected = validate_traces(run, module, cfg, tp)
     run.log("%s: %d sessions, %d events validated, %d rejected, %d driver faults" % (label, ns, nev, len(rejected), len(faults)))
+    confirmed = None
     for sid, evs, idx in rejected:
         sess = by_id.get(sid)
+        if any(e.get("ev") == "timeout" for e in evs):
+            # "returns normally": a session that did not come back counts only if it does not come back again,
+            # alone, with ten times the budget (twice)
+            if confirmed is None:
+                n_to = 0
+                for k in range(2):
+                    rs = os.path.join(run.scratch, "sessions-%s-repro%d.ndjson" % (label, k))
+                    rt = os.path.join(run.scratch, "traces-%s-repro%d.ndjson" % (label, k))
+                    for p in (rs, rt):
+                        if os.path.exists(p):
+                            os.remove(p)
+                    write_ndjson(rs, [sess])
+                    run_driver(run, binary, rs, rt, nshards=1, extra=("-calltimeout", "200s"), timeout=3600)
+                    n_to += 1 if any(e.get("ev") == "timeout" for e in read_ndjson(rt)) else 0
+                if n_to < 2:
+                    raise Infra("session %s hit the driver watchdog but came back when re-run alone (not a verdict)" % sid)
+                confirmed = sid
+            if sid != confirmed:
+                continue
+            run.violation("%s:hang" % label, {"session": sess, "trace": evs, "spec": module},
+                          "an entry point did not return (session %s hung again twice, alone, with ten times the budget): %s" % (
+                              sid, json.dumps(sess)[:300]))
+            continue
         key, what = describe(sess, evs, idx)
         run.violation(key, {"session": sess, "trace": evs, "rejected_event_index": idx, "spec": module}, what)
     if not run.samples:
